@@ -1,8 +1,8 @@
 from contracts.workspace_io import IoCall, Geoh5Getter, CloseContract, ExitContract, FetchActiveWorkspace
 from contracts.workspace_io import CloseFlushes
-from contracts.tree import OpenOnOpenWorkspace, OpenResetsRegistries
+from contracts.tree import OpenMode, OpenOnOpenWorkspace, OpenResetsRegistries
 from contracts.sessions import CloseHistories
-CONTRACTS = [IoCall, Geoh5Getter, CloseContract, CloseFlushes, ExitContract, FetchActiveWorkspace, OpenOnOpenWorkspace, OpenResetsRegistries, CloseHistories]
+CONTRACTS = [IoCall, Geoh5Getter, CloseContract, CloseFlushes, ExitContract, FetchActiveWorkspace, OpenOnOpenWorkspace, OpenResetsRegistries, OpenMode, CloseHistories]
 
 MANIFEST = {
     "category": "proof",
